@@ -219,6 +219,11 @@ func (f *Frame) neutralCall(st *State, common *ssa.CallCommon, key string) *Val 
 		return nil
 	}
 	v := f.c.freshVal("ext."+key, rt)
+	if strings.HasPrefix(key, "fmt.Errorf") || strings.HasPrefix(key, "errors.New") {
+		// a freshly created, non-nil error value
+		c := f.c
+		c.Assume(TTrue, And(Neq(v.Tag, IntLitI(0)), Eq(v.Tag, IntLitI(int64(c.W.tagOfName("*errors.errorString")))), ILe(IntLitI(1), RefRoot(v.Pay))), "fmt.Errorf / errors.New return a non-nil error")
+	}
 	return v
 }
 
